@@ -44,7 +44,8 @@ SPEC = {
             'len(hashCache), the reply class and the list queued for pushDelayTxRoutine are recorded and judged by the '
             'two-map model (exact released order) and by the flat specification). After every event the full observable state is recorded (Walk order, '
             'Size, TxNumOfAccount and GetAccTxs per sender, GetLatestTx, short- and full-hash lookup of every known hash, '
-            'TotalFee, GetTotalCacheBytes, error class). non-trivial = the pool is non-empty after some event; '
+            'TotalFee, GetTotalCacheBytes, error class). non-trivial = the pool is non-empty after some event (delay streams: '
+            'the delay cache is non-empty or something is released at some event); '
             'distinct = distinct Gallina case terms',
     'trusted_base': [
         'the 5-byte short hash is an arbitrary function sh of the hash (a function argument of the model; the theorems '
